@@ -916,18 +916,18 @@ def plan(tier, seed):
     if tier == "quick":
         # every external-install / patch request costs a fork+exec: keep the quick tier small
         for i in range(6):
-            tasks.append({"task": "streams", "layer": "inproc", "examples": 50, "salt": i})
+            tasks.append({"task": "streams", "layer": "inproc", "examples": 45, "salt": i})
         for i in range(4):
-            tasks.append({"task": "streams", "layer": "phase", "examples": 30, "salt": 10 + i})
+            tasks.append({"task": "streams", "layer": "phase", "examples": 25, "salt": 10 + i})
         for i in range(6):
             tasks.append({"task": "streams", "layer": "bash", "examples": 8, "salt": 20 + i})
     else:
         for i in range(8):
-            tasks.append({"task": "streams", "layer": "inproc", "examples": 400, "salt": i})
+            tasks.append({"task": "streams", "layer": "inproc", "examples": 220, "salt": i})
         for i in range(4):
-            tasks.append({"task": "streams", "layer": "phase", "examples": 300, "salt": 10 + i})
+            tasks.append({"task": "streams", "layer": "phase", "examples": 130, "salt": 10 + i})
         for i in range(8):
-            tasks.append({"task": "streams", "layer": "bash", "examples": 60, "salt": 20 + i})
+            tasks.append({"task": "streams", "layer": "bash", "examples": 35, "salt": 20 + i})
     return tasks
 
 
